@@ -105,7 +105,7 @@ Proof. exact concat_expand_all. Qed.
 Print Assumptions C19_concat_expand.
 
 (* every other sensor (float / SIGNED int arrays, categorical data of float / signed integer / string / boolean /
-   object type; unsigned integer types: see C19_unsigned_sensor_* below) present in an arbitrary subset of the parts:
+   object type; unsigned integer types: see C19_unsigned_sensor below) present in an arbitrary subset of the parts:
    the whole presents the concatenation of the parts' values with the dummy value of the sensor's type (NaN, -1, '', False; C12)
    over the parts that lack it; KeyError iff no part has it; it only fails for a sensor that is categorical in one
    part and a plain array in another *)
@@ -131,31 +131,62 @@ Theorem C19_dummy_is_C12s : forall dt,
 Proof. exact dummy_code_def. Qed.
 Print Assumptions C19_dummy_is_C12s.
 
-(* FINDING C19-F4 (open).  [get_sensor_u] = ConcatenatedSensorCache.get including sensors whose common dtype is an
-   unsigned integer type ([uns]): when some part lacks such a sensor, dummy_sensor_getter evaluates
-   np.dtype(dtype).type(-1), which NumPy >= 2 refuses (OverflowError), so the sensor of the concatenation cannot be
-   read although the property asks for the concatenation with dummy fill.  _refuted: a concrete two-part
-   concatenation; _partial: C19_concat_expand_sensors for ConcatenatedSensorCache.get under the guard "not an
-   unsigned type, or no part lacks the sensor". *)
-Theorem C19_unsigned_sensor_refuted :
+(* FINDING C19-F4 (REPAIRED, katdal commit "fix: dummy_sensor_getter casts the integer dummy -1 into the sensor's type").
+   [get_sensor_u ... ubits] = ConcatenatedSensorCache.get including sensors whose common dtype is an unsigned integer type
+   of [ubits] bits (ubits = 0: one of the types above; then it IS get_sensor, C19_unsigned_sensor_signed_case).
+   dummy_sensor_getter now evaluates np.array(-1).astype(dtype)[()] (re-read by the translator, which refuses the old
+   np.dtype(dtype).type(-1)): -1 cast into the type.  FULL strength, no guard: for every opened concatenation, every
+   sensor, every width, every subset of the parts having it, the whole presents the concatenation of the parts' values
+   with the dummy of the type - the LARGEST value 2^ubits - 1 of an unsigned type ([spec_dummy_u]: the value the
+   documented dummy -1 is stored as; what NumPy < 2 produced) - over the parts that lack it. *)
+Theorem C19_unsigned_sensor : forall input ps m name ar ubits,
+  sort_parts input = Some ps -> Forall part_ok ps -> concat_open input = COk m -> Forall (sens_ok name) ps ->
+  match get_sensor_u (m_parts m) name ar ubits with
+  | RNum l => spec_sensor_u ubits ps name = Some l
+  | RCat c => spec_sensor_u ubits ps name = Some (zexpand c) /\ cd_ok (list_sum (map nT ps)) c
+  | RKeyError => spec_sensor_u ubits ps name = None
+  | RFail => mixed_kinds name ps = true
+  end.
+Proof. exact unsigned_sensor. Qed.
+Print Assumptions C19_unsigned_sensor.
+
+(* what must NOT change: for the types of C12's model (ubits = 0) nothing changed - same function, same spec, -1 for
+   integers; and the filler of an unsigned type lies inside the type (never -1) *)
+Theorem C19_unsigned_sensor_signed_case : forall ps name ar,
+  get_sensor_u ps name ar 0 = get_sensor ps name ar /\ spec_sensor_u 0 ps name = spec_sensor ps name.
+Proof. exact unsigned_signed_case. Qed.
+Print Assumptions C19_unsigned_sensor_signed_case.
+
+Theorem C19_unsigned_filler : forall ubits, (0 < ubits)%Z ->
+  (0 <= dummy_code_u ubits KV.Model.SensorCache.DInt < 2 ^ ubits)%Z /\
+  dummy_code_u ubits KV.Model.SensorCache.DInt = (2 ^ ubits - 1)%Z.
+Proof. exact unsigned_filler_in_range. Qed.
+Print Assumptions C19_unsigned_filler.
+
+(* non-vacuity: a uint8 sensor (3, 200, 200, 200) held by the first of two parts: 255, 255 over the second; as uint16
+   65535; as a signed sensor -1 *)
+Theorem C19_unsigned_sensor_example :
+  sort_parts ex_U = Some ex_U /\ Forall part_ok ex_U /\ concat_open ex_U = COk ex_Um /\ Forall (sens_ok 9%Z) ex_U /\
+  (match get_sensor_u (m_parts ex_Um) 9 false 8 with RCat c => Some (zexpand c, ev c) | _ => None end)
+    = Some ([3; 200; 200; 200; 255; 255]%Z, [0; 1; 4; 6]) /\
+  spec_sensor_u 8 ex_U 9 = Some [3; 200; 200; 200; 255; 255]%Z /\
+  spec_sensor_u 16 ex_U 9 = Some [3; 200; 200; 200; 65535; 65535]%Z /\
+  (match get_sensor_u (m_parts ex_Um) 9 false 16 with RCat c => Some (zexpand c) | _ => None end)
+    = Some [3; 200; 200; 200; 65535; 65535]%Z /\
+  (match get_sensor_u (m_parts ex_Um) 9 false 0 with RCat c => Some (zexpand c) | _ => None end)
+    = Some [3; 200; 200; 200; -1; -1]%Z.
+Proof. exact ex_unsigned. Qed.
+Print Assumptions C19_unsigned_sensor_example.
+
+(* BEFORE the repair ([get_sensor_u_before_fix]: np.dtype(dtype).type(-1) raises OverflowError under NumPy >= 2): the
+   same two-part concatenation could not be read where the spec answers *)
+Theorem C19_unsigned_sensor_refuted_before_fix :
   exists input ps m name l,
     sort_parts input = Some ps /\ Forall part_ok ps /\ concat_open input = COk m /\ Forall (sens_ok name) ps /\
     mixed_kinds name ps = false /\ spec_sensor ps name = Some l /\
-    get_sensor_u (m_parts m) name false true = RFail.
-Proof. exact ex_unsigned_refuted. Qed.
-Print Assumptions C19_unsigned_sensor_refuted.
-
-Theorem C19_unsigned_sensor_partial : forall input ps m name ar uns,
-  sort_parts input = Some ps -> Forall part_ok ps -> concat_open input = COk m -> Forall (sens_ok name) ps ->
-  uns = false \/ lacks_some ps name = false ->
-  match get_sensor_u (m_parts m) name ar uns with
-  | RNum l => spec_sensor ps name = Some l
-  | RCat c => spec_sensor ps name = Some (zexpand c) /\ cd_ok (list_sum (map nT ps)) c
-  | RKeyError => spec_sensor ps name = None
-  | RFail => mixed_kinds name ps = true
-  end.
-Proof. exact unsigned_sensor_partial. Qed.
-Print Assumptions C19_unsigned_sensor_partial.
+    get_sensor_u_before_fix (m_parts m) name false true = RFail.
+Proof. exact ex_unsigned_refuted_before_fix. Qed.
+Print Assumptions C19_unsigned_sensor_refuted_before_fix.
 
 (* cache[name] under the time selection: every part applies its own slice of the global mask; glued, that is the
    global mask applied to the whole series; and the slices tile the mask *)
@@ -349,6 +380,18 @@ Print Assumptions C19_spws_merged_iff_identical.
 Theorem C19_dummy_table : forall dt, dummy_of_table dummy_value_table dt = dummy_code dt.
 Proof. exact KV.Proofs.ConcatIdentP.dummy_table_is_model. Qed.
 Print Assumptions C19_dummy_table.
+
+(* ... and for an unsigned integer type of any width (np.issubdtype(uint, np.integer): the integer branch, whose filler the
+   translator found to be np.array(-1).astype(dtype)[()], a cast): the filler of get_sensor_u *)
+Theorem C19_dummy_table_unsigned : forall ubits dt,
+  dummy_of_table_u dummy_value_table dummy_int_is_cast_into_type ubits dt = dummy_code_u ubits dt.
+Proof. exact KV.Proofs.ConcatIdentP.dummy_table_u_is_model. Qed.
+Print Assumptions C19_dummy_table_unsigned.
+
+Theorem C19_dummy_cast_source :
+  dummy_int_is_cast_into_type = true /\ dummy_int_before_cast = dummy_code KV.Model.SensorCache.DInt.
+Proof. exact KV.Proofs.ConcatIdentP.dummy_cast_constants_ok. Qed.
+Print Assumptions C19_dummy_cast_source.
 
 (* ------------------------------------------------------------------ select(subarray=s, spw=w, ...) *)
 (* what the translator finds in DataSet.select: spw= / subarray= default to the current ones; an index beyond the
